@@ -180,6 +180,13 @@ def run(repo, tier):
     rep.count('parse_immediate paths', len(seen))
     # (f) pairing of the halves built by the pseudo-instruction pass
     IS.check_lo_pairing(rep, facts, 'R7.lo-width', 'R7.guard-fits', 'R7.hi-lo-pair')
+    # the auipc + jalr pair rebuilds its target only if both halves are %hi / %lo of the *same* value: every site that evaluates
+    # the jalr half does so relative to the auipc, and nothing is added to the result afterwards (%lo(v + c) != %lo(v) + c)
+    IS.check_auipc(rep, facts, 'R7.auipc-adjust', 'R7.auipc-sibling')
+    # ... and both halves are evaluated where they stand: the stored operand is the value evaluated at the item's own final
+    # offset against the final tables (a memo keyed by the expression text hands the second far call the halves of the first)
+    from .. import labelrules as LB
+    LB.check_L4(rep, facts, 'R7.final')
     rep.floor('%lo constructions examined', 5)
     rep.floor('consumer encoders compared', 20)
     rep.floor('parse_immediate paths', 4)
